@@ -3,9 +3,9 @@
    over ALL interleavings: every list of enabled atomic steps of the event-loop
    thread, the selector thread and the environment, any number of fds and
    registration changes. *)
-From Coq Require Import List Arith Bool.
+From Coq Require Import List Arith Bool Lia.
 Import ListNotations.
-From TV Require Import Lib.Obs C40.Model C40.Run C40.Proofs C40.Proofs2 C40.Proofs3 C40.Proofs4.
+From TV Require Import Lib.Obs C40.Model C40.Run C40.Proofs C40.Proofs2 C40.Proofs3 C40.Proofs4 C40.Proofs5 C40.Proofs8.
 
 (* (1) At most one select is outstanding: the single "token" is either the handed
    snapshot (_select_args), the running select, the queued _handle_select or the
@@ -86,17 +86,46 @@ Theorem C40_lock_discipline : forall s, reachable s ->
 Proof. exact lock_discipline. Qed.
 Print Assumptions C40_lock_discipline.
 
-(* (5) No readiness is lost — PARTIAL.  Full statement: "every readiness of an fd
-   that stays registered is EVENTUALLY dispatched on the event-loop thread" (a
-   liveness property under fair scheduling).  Proved: as long as a registered fd is
-   ready the system is never at rest — some internal step is enabled — which with
-   (1)-(4) is the invariant-plus-progress form of it; no temporal-logic theorem. *)
-Theorem C40_ready_fd_not_lost_partial : forall s k f, reachable s -> lp s <> LClosed ->
+(* (5) No readiness is lost.  [live k f s]: fd f (not the waker) is registered for k,
+   ready, and close() has not been entered.  From every such reachable state,
+   (a) some internal step is enabled (the system is never at rest), and
+   (b) EVERY run of internal steps (any interleaving of the two threads; user code
+   and the environment do nothing further, so f stays registered and ready) that
+   does not dispatch f has length at most [dist k f s] <= 2*(#registered fds) +
+   (size of the batch in flight) + 30, and f is still live after it.
+   Hence under any scheduler that keeps taking enabled internal steps the callback
+   of f runs — on the event-loop thread, by (2) — within that many steps.
+   (The design note's "partial" form, invariant + progress, is (a).) *)
+Theorem C40_ready_fd_dispatched_within_bound : forall s k f, reachable s -> live k f s ->
+  (exists e, internal (snd e) = true /\ step s e <> None) /\
+  (forall tr s', Forall (quiet_step k f) tr -> steps s tr = Some s' ->
+     length tr + dist k f s' <= dist k f s /\ live k f s' /\
+     exists e, internal (snd e) = true /\ step s' e <> None).
+Proof.
+  intros s k f R L. pose proof (reachable_inv s R) as I. split.
+  - destruct (progress_inv s I (live_not_closed k f s L)) as [H|Q]; [exact H|].
+    exfalso. eapply live_not_quiescent; eauto.
+  - intros tr s' Q H. destruct (dist_steps k f tr s s' I L Q H) as [L' D]. split; [exact D|]. split; [exact L'|].
+    destruct (progress_inv s' (inv_steps _ _ _ I H) (live_not_closed k f s' L')) as [P|Qs]; [exact P|].
+    exfalso. eapply live_not_quiescent; eauto.
+Qed.
+Print Assumptions C40_ready_fd_dispatched_within_bound.
+
+(* the same safety-plus-progress fact with user code and the environment still active *)
+Theorem C40_ready_fd_never_at_rest : forall s k f, reachable s -> lp s <> LClosed ->
   mem f (regs k s) = true ->
   (match k with KR => readable s f | KW => writable s f end) = true ->
   exists e, internal (snd e) = true /\ step s e <> None.
 Proof. exact ready_not_lost. Qed.
-Print Assumptions C40_ready_fd_not_lost_partial.
+Print Assumptions C40_ready_fd_never_at_rest.
+
+(* (5b) the snapshot handed to the selector is the registered sets at that moment:
+   registration changes made while a report was in flight are in the next select *)
+Theorem C40_snapshot_is_current_at_handover : forall s s',
+  step s (TLoop, Notify) = Some s' -> lp s = LStartHeld ->
+  args s' = Some (readers s', writers s') /\ readers s' = readers s /\ writers s' = writers s.
+Proof. exact snapshot_current. Qed.
+Print Assumptions C40_snapshot_is_current_at_handover.
 
 (* (6) close(): past the join the selector thread has stopped (if it was ever
    started); while close() waits in join the event-loop thread has no other step,
@@ -122,6 +151,30 @@ Proof.
   - apply (join_bounded s tr s' R); [|assumption]. rewrite (I_closing s I), E. reflexivity.
 Qed.
 Print Assumptions C40_close_join_terminates.
+
+(* (6b) close() ALWAYS returns: from any reachable state inside close() — wherever
+   the selector thread is: parked on the condition, notified, holding the lock,
+   before/inside/after select() — every continuation performs at most
+   [cdist s] <= 38 internal steps, stays inside close(), and until close() has
+   returned some internal step is enabled.  close()'s notify un-parks a selector
+   that waits on the condition: no reachable state has _closing_selector set and
+   the selector still parked. *)
+Theorem C40_close_always_returns : forall s, reachable s -> close_pc (lp s) = true ->
+  forall tr s', steps s tr = Some s' ->
+    close_pc (lp s') = true /\ count_internal tr + cdist s' <= cdist s /\ count_internal tr <= 38 /\
+    (lp s' <> LClosed -> exists e, internal (snd e) = true /\ step s' e <> None).
+Proof.
+  intros s R C tr s' H. pose proof (reachable_inv s R) as I.
+  destruct (cdist_steps tr s s' I C H) as [C' D]. pose proof (cdist_le s).
+  repeat split; try assumption; try lia.
+  intros NC. destruct (progress_inv s' (inv_steps _ _ _ I H) NC) as [P|Q]; [exact P|].
+  destruct Q as [Q _]. rewrite Q in C'. discriminate.
+Qed.
+Print Assumptions C40_close_always_returns.
+
+Theorem C40_close_unparks_selector : forall s, reachable s -> closing s = true -> sp s <> SWaiting.
+Proof. intros s R C E. destruct (no_lost_wakeup s R E) as [_ F]. congruence. Qed.
+Print Assumptions C40_close_unparks_selector.
 
 (* (7) Every trace the model accepts passes the model-independent monitor that
    check_case applies to recorded traces of the implementation. *)
